@@ -23,6 +23,7 @@ def run(tier, seed, replay=None):
         if tier == "thorough":
             ck.mc(DIR, "Bnb", "MC_bnb2.cfg", timeout=14400)
         cases = [drv.gen(rng) for _ in range(250 if tier == "quick" else 4000)]
+        cases += [drv.gen_pairrows(rng) for _ in range(150 if tier == "quick" else 2500)]
     res = run_tasks("milp", "run_milp", cases, timeout=120)
     trs = []
     for r, c in zip(res, cases):
